@@ -17,6 +17,7 @@ from ..flags import check_flag_scope
 from ..core import Unfoldable, func_params
 from ..normalize import inline, local_env, expand, canon, ctext, conjuncts, eval_test, Unknown, _enclosing, branch_values, merge_outcomes
 from .. import flow
+from ..cfg import CFG
 
 CBM = 'fim.graph.resources.neo4j_cbm:Neo4jCBMGraph'
 ABCCBM = 'fim.graph.resources.abc_cbm:ABCCBMPropertyGraph'
@@ -122,6 +123,32 @@ def run(prog, rep):
             rep.violation('R2', loc(mod, c), 'Neo4jCBMGraph.merge_adm', f'{k} keyed by {vt}',
                           f'the {k} must record the id of the contributing model ({real}); a temporary or different id makes '
                           f'unmerge unable to find what this model contributed')
+    # inside rewrite_delegations: every delegation value that was decoded is re-keyed and put back - between the decoding and the
+    # write-back only a rejection (raise) may leave the path
+    adm_cls = prog.cls('fim.graph.resources.abc_adm:ABCADMPropertyGraph')
+    rw0 = adm_cls.methods.get('rewrite_delegations')
+    if rw0 is None:
+        raise AnalysisError('ABCADMPropertyGraph.rewrite_delegations vanished')
+    rw = inline(prog, adm_cls, rw0)
+    rcfg = CFG(rw)
+    decs = [c for c in walk_no_nested(rw) if isinstance(c, ast.Call) and call_name(c) == 'from_json']
+    backs = [n for n in walk_no_nested(rw) if isinstance(n, ast.Assign) and isinstance(n.targets[0], ast.Subscript) and
+             any(isinstance(c, ast.Call) and call_name(c) == 'to_json' for c in ast.walk(n.value))]
+    rekeys = [n for n in walk_no_nested(rw) if isinstance(n, ast.Assign) and any(isinstance(t, ast.Attribute) and t.attr == 'delegation_id' for t in n.targets)]
+    if not decs or not backs or not rekeys:
+        raise AnalysisError('rewrite_delegations: decode / re-key / write-back statements not recognised')
+    dn_ = flow.node_of(rcfg, decs[0])
+    for what_, stmts_ in (('re-keyed with the id of the model', rekeys), ('encoded back into the node properties', backs)):
+        must = {flow.node_of(rcfg, x).id for x in stmts_ if flow.node_of(rcfg, x) is not None}
+        heads = [nd for nd in rcfg.nodes if nd.kind == 'test' and nd.tag == 'for'] + [rcfg.exit]
+        leak = [h for h in heads if dn_ is not None and any(rcfg.paths_avoiding(s_, h, must) for s_, _ in dn_.succ if s_.id not in must)]
+        rep.instance('R2', f'rewrite_delegations: every decoded delegation value is {what_}: {not leak}')
+        if leak:
+            rep.violation('R2', loc(adm_cls.module, decs[0]), 'ABCADMPropertyGraph.rewrite_delegations', f'a decoded value can skip being {what_}',
+                          f'after a delegation property has been decoded there is a path to the next property / node that is not a rejection and '
+                          f'on which the value is not {what_}: such entries (for instance pool references, which carry no details of their own) '
+                          f'keep the delegation id of the aggregate model instead of the id of the model, and unmerge cannot find them')
+
     # the contributor list that is extended is the one just read from the merged node, and that one is written back
     mloops = [l for l in walk_no_nested(ma) if isinstance(l, ast.For) and any(isinstance(c, ast.Call) and call_name(c) == 'merge_nodes' for c in ast.walk(l))]
     if mloops:
@@ -282,6 +309,17 @@ def run(prog, rep):
                       f'never examined and what was collected is not written back, so a shared node that carries only one of the two delegation '
                       f'properties loses it depending on which model is merged first')
     rep.instance('R5', f'_update_node_delegations: early exits from the property loop: {len(loops_left_early(und))}')
+    # what is decoded for one delegation property is decided within that iteration: nothing decoded for the labels is still there
+    # when the capacities are looked at
+    from ..lints import iteration_values_carried
+    carried = iteration_values_carried(und)
+    rep.instance('R5', f'_update_node_delegations: values of one property carried into the next iteration: {[c_[0] for c_ in carried]}')
+    for nm_, l_, rd_ in carried:
+        rep.violation('R5', loc(mod, rd_), 'Neo4jCBMGraph._update_node_delegations', f'`{nm_}` read in the loop over {norm(l_.iter, 50)} without being set in that iteration',
+                      f'`{nm_}` is decoded from the property of the current iteration only on some paths, and read on a path where this '
+                      f'iteration has not set it: when the node has the first delegation property but not the second, the value decoded for the '
+                      f'first one is taken for the second as well (label delegations written into the capacity property, or a merge refused '
+                      f'because "both sides speak" although only one does)')
     # ---- R6 ----
     utxt = ast.unparse(um)
     gid = [a.arg for a in um.args.kwonlyargs + um.args.args if a.arg != 'self'][0]
